@@ -59,7 +59,7 @@ def evb_obligation(mode, prefix, final, cb=0, final_max=8, extra_defs=(), ndebug
     copy = max(total + final_max, 24) + 2
     # freeing a multicast chain re-enters evbuffer_chain_free/evbuffer_decref_and_unlock_ once (parent chain, source buffer)
     # library chain walks: at most (chains the prefix can have created) + the final operation's own, + 1 for the exit test
-    created = sum({"ADD": 1, "PREPEND": 1, "REF": 1, "EXPAND": 1, "RESERVE_COMMIT": 1, "RESERVE_ONLY": 1, "ADD_IOVEC": 2, "MCAST": 2, "ADDBUFREF": 2}.get(k, 0) for _, k, _ in prefix)
+    created = sum({"ADD": 1, "PREPEND": 1, "REF": 1, "EXPAND": 1, "RESERVE_COMMIT": 1, "RESERVE_COMMIT2": 2, "RESERVE_ONLY": 1, "ADD_IOVEC": 2, "MCAST": 2, "ADDBUFREF": 2}.get(k, 0) for _, k, _ in prefix)
     chain_unwind = min(CHAIN_UNWIND, created + 3)
     rec = 2 if (fk in ("ADDBUFREF", "MCAST") or any(k in ("ADDBUFREF", "MCAST") for _, k, _ in prefix)) else 1
     nm = "%s%s__%s%s" % (name_prefix, "_".join(pname(p) for p in prefix) or "empty", "b" if ft == B else "", fk.lower())
